@@ -368,6 +368,8 @@ def channel_isodur(ctx):
         "distinct by (whole, micros, form, route)"))
     ks = KeySet(len(EXHAUSTIVE_WHOLES) if ctx.thorough else 0)
     ch.nontrivial = ks
+    if impl()[3] is None:
+        ch.count("template_tags not importable: filter route falls back to utils")
     rng = ctx.rng("isodur")
     eval_isodur(gen_isodur(rng, ctx.scale(20000, 100000)), ch, ks)
     if ctx.thorough:
